@@ -452,25 +452,39 @@ def np_spec_sq(c):
 
 # ----------------------------------------------------------------------------- the property on one case (never uses Impl)
 
-def cmp_cols(cols_real, vals_real, expected, what, tol=1e-9, skip=()):
+def cmp_cols(cols_real, vals_real, expected, what, tol=1e-9, skip=(), norm_tol=None):
+    """values of the columns present on both sides first (a wrong number is the more telling report), then the column list"""
     names = [n for n, _ in expected]
-    if cols_real != names:
-        return "columns", f"{what}: returned columns {cols_real} but expected {names}"
     for n, ev in expected:
-        if n in skip:
+        if n in skip or n not in vals_real:
             continue
         rv = vals_real[n]
         if len(rv) != len(ev):
             return "bins", f"{what}: column {n} has {len(rv)} rows, expected {len(ev)} bins"
         for k, (a, b) in enumerate(zip(rv, ev)):
+            t = (norm_tol or tol * 30) if n == "gA_norm" else tol
             if isinstance(a, complex):
-                if abs(a.imag) > tol * max(1.0, abs(a)):
+                if abs(a.imag) > t * max(1.0, abs(a)):
                     return n, f"{what}: {n}[bin {k}] returned the complex number {a!r} but expected {float(b)!r}"
                 a = a.real
-            t = tol * 30 if n == "gA_norm" else tol
             if not common.close(a, float(b), t):
                 return n, f"{what}: {n}[bin {k}] returned {a!r} but expected {float(b)!r}"
+    if cols_real != names:
+        return "columns", f"{what}: returned columns {cols_real} but expected {names}"
     return None
+
+
+def norm_tolerance(cond):
+    """gA_norm = (gA − ⟨A⟩²)/(⟨A²⟩ − ⟨A⟩²): 32-bit dtypes take the two averages in float32 (relative error ≤ 2^-23·N each)"""
+    if cond["kind"] != "real":
+        return None
+    var = float(variance(cond))
+    if var <= 0:
+        return None
+    vals = [float(v[0][0]) for v in cond["vals"]]
+    msq = sum(x * x for x in vals) / len(vals)
+    eps = 2.0 ** -22 if cond["dtype"] == "float32" else 2.0 ** -50
+    return max(3e-8, 8 * eps * len(vals) * (msq / var) * (1 + msq / var))
 
 
 def tol_of(cond):
@@ -569,7 +583,7 @@ def failing_gr(c, parsed=None):
     real_bins = len(vals[cols[0]]) if cols else 0
     if mbm < MU and real_bins != spec_mb and real_bins == int(min(float(x) for x in c["box"]) / 2.0 / float(c["rdelta"])):
         return ("skip", "maxbin-margin")
-    w = cmp_cols(cols, vals, gr_expected(c, spec), "Spec", 1e-9, norm_tol_skip(c))
+    w = cmp_cols(cols, vals, gr_expected(c, spec), "Spec", 1e-9, norm_tol_skip(c), norm_tolerance(c["cond"]))
     if w:
         return w
     try:
@@ -686,7 +700,7 @@ def impl_gr(c, parsed):
     skip = ()
     if parsed["norm"] and (c["cond"]["kind"] not in ("real",) or variance(c["cond"]) < Fraction(1, 100)):
         skip = ("gA_norm",)
-    return cmp_cols(cols, vals, parsed["impl"], "Impl", 1e-9, skip)
+    return cmp_cols(cols, vals, parsed["impl"], "Impl", 1e-9, skip, norm_tolerance(c["cond"]))
 
 
 def impl_sq(c, parsed):
